@@ -151,6 +151,20 @@ class CaseRun:
     def act_dir(self) -> str:
         return os.path.realpath(os.path.join(self.sds_root, 'act'))
 
+    def failing_phase(self) -> str:
+        if self.exception is not None or self.result.failure_info is None:
+            return ''
+        return self.result.failure_info.phase_step.phase.identifier
+
+    def failing_line(self) -> str:
+        """first source line of the instruction that failed ('' if none / act phase)"""
+        if self.exception is not None or self.result.failure_info is None:
+            return ''
+        loc = self.result.failure_info.source_location
+        if loc is None:
+            return ''
+        return loc.location.source.first_line.text
+
     def failure_text(self) -> str:
         if self.exception is not None:
             return repr(self.exception)
